@@ -44,13 +44,14 @@ Second mapping ("joined", 20% of the random histories and a 2-op small-scope str
 joined-table inheritance, base B on t(id, kind, a0), subclass T on t2(id, a1, a2), every row a T.
 A partial-column query is select(B) there: its rows carry a0 only and meet T instances — the same
 populators["expire"] branch reached without from_statement.  The model is the same (cols = [0]).
-Histories of this mapping that are compared with the model contain no external DELETE: unexpiring
-a subclass-table attribute of a vanished row takes mapper._optimized_get_statement, whose empty
-result loading._load_scalar_attributes returns unexamined -> KeyError instead of ObjectDeletedError,
-then None on later reads (known finding joined-subclass-attr-unexpire-deleted-row-keyerror; fixed
-witness JOINED_DELETED_WITNESS replayed every run with the direct oracle; Lean:
-loadScalarAttributes, unexpire_deleted_row_raises_partial / _counterexample, flag regenerated by
-gen()).
+External DELETEs are part of this mapping's histories too: unexpiring a subclass-table attribute
+of a vanished row takes mapper._optimized_get_statement, whose empty result
+loading._load_scalar_attributes examines since fix eeca727 (ObjectDeletedError on the first and on
+every later read, as for the single-table mapper and as the model says).  Before the fix the
+result was returned unexamined -> KeyError, then None on later reads: the oracle still classifies
+that as joined-subclass-attr-unexpire-deleted-row-keyerror (now a violation; the witness
+JOINED_DELETED_WITNESS runs first in every run), the translator flag optimizedGetResultChecked
+falls and Props/C46 optimized_get_result_checked / unexpire_deleted_row_raises stop checking.
 """
 import os
 import shutil
@@ -61,8 +62,8 @@ PID = "C46"
 LEVEL = "proof"
 LEAN = ["SaVerif.Props.C46"]
 META = {
-    "text": "Lean theorems over the session/database transition system for ALL histories: reading an expired attribute returns the row's current value and pending changes of the same object are kept (read_expired_eq_db); after expire / expire_all / refresh / commit with expire_on_commit / rollback / a populate_existing query that matched the row, the next read returns the database value (fresh_after_*, read_of_fresh); a query's rows may carry all or any subset of the entity's attribute columns (from_statement over a column list or text; quantified over all subsets): after populate_existing every carried attribute is loaded, unmodified and equal to the row, every attribute not carried is unloaded and unmodified (populate_existing_cols), so the next read of ANY attribute returns the database value (read_after_populate_existing_eq_db, fresh_after_populate_existing), resting on the source fact regenerated by the translator that _populate_full pops absent attributes unconditionally (populate_existing_pops_absent); a new identity gets its carried columns and loads the rest on first read (fresh_after_query_new_identity); without populate_existing only unloaded unmodified carried attributes are filled (query_plain_existing); unexpiring an attribute of a vanished row raises ObjectDeletedError on every path of _load_scalar_attributes except the unexamined optimized-get branch of an inheriting mapper (unexpire_deleted_row_raises_partial, proved counterexample, unexpire_deleted_row_current over the regenerated flag); a pending value survives every operation that does not expire, refresh, repopulate, flush or roll back that attribute (pending_survives); and, by induction over arbitrary operation sequences without external writes, every loaded unmodified attribute equals the database (coh_run; user-level corollary read_coherent), coherence being re-established by expire_all/commit/rollback after any external interference (coh_after_expireAll, coh_after_rollback, coh_after_commit_eoc). The model is tied to orm/state.py, session.py, loading.py by a differential run on a real Session over a SQLite file with a second writer connection; the property itself is re-checked by an independent reference that tracks the truth and the invalidations.",
-    "note": "Trusted: Lean kernel; correspondence harness (sampling + exhaustive short sequences); SQLite (no read snapshot is held by pysqlite, so 'current for the transaction' = latest commit + own flushed changes; snapshot-isolation backends are not modelled). Relationship / collection / deferred attributes and refresh with_for_update are not modelled (column attributes only). Rows that do not carry every column are produced by select(T).from_statement(select(T.id, cols) | text(...)) on the single-table mapping and by select(Base) meeting subclass instances on a joined-table-inheritance mapping (same model op, cols = [a0]). The transition system is the single-table mapper: of the inheriting mapper only the decision of _load_scalar_attributes (optimized get vs select by identity, what a missing row becomes) is transcribed (loadScalarAttributes), and the joined-mapping histories compared with the model contain no external DELETE. _partial theorem: unexpire_deleted_row_raises_partial (hypothesis: result examined, or not the optimized inheriting branch) with unexpire_deleted_row_raises_counterexample; known finding joined-subclass-attr-unexpire-deleted-row-keyerror (KeyError, then None, instead of ObjectDeletedError) replayed by a fixed witness on the real code every run. The translator recognises one shape of the populate_existing loop of loading._populate_full and of the `if statement is not None:` branch of _load_scalar_attributes (obligation fails otherwise).",
+    "text": "Lean theorems over the session/database transition system for ALL histories: reading an expired attribute returns the row's current value and pending changes of the same object are kept (read_expired_eq_db); after expire / expire_all / refresh / commit with expire_on_commit / rollback / a populate_existing query that matched the row, the next read returns the database value (fresh_after_*, read_of_fresh); a query's rows may carry all or any subset of the entity's attribute columns (from_statement over a column list or text; quantified over all subsets): after populate_existing every carried attribute is loaded, unmodified and equal to the row, every attribute not carried is unloaded and unmodified (populate_existing_cols), so the next read of ANY attribute returns the database value (read_after_populate_existing_eq_db, fresh_after_populate_existing), resting on the source fact regenerated by the translator that _populate_full pops absent attributes unconditionally (populate_existing_pops_absent); a new identity gets its carried columns and loads the rest on first read (fresh_after_query_new_identity); without populate_existing only unloaded unmodified carried attributes are filled (query_plain_existing); unexpiring an attribute of a vanished row raises ObjectDeletedError on every path of _load_scalar_attributes, the optimized-get branch of an inheriting mapper included (unexpire_deleted_row_raises, over the regenerated flag optimizedGetResultChecked: true since fix eeca727); a pending value survives every operation that does not expire, refresh, repopulate, flush or roll back that attribute (pending_survives); and, by induction over arbitrary operation sequences without external writes, every loaded unmodified attribute equals the database (coh_run; user-level corollary read_coherent), coherence being re-established by expire_all/commit/rollback after any external interference (coh_after_expireAll, coh_after_rollback, coh_after_commit_eoc). The model is tied to orm/state.py, session.py, loading.py by a differential run on a real Session over a SQLite file with a second writer connection; the property itself is re-checked by an independent reference that tracks the truth and the invalidations.",
+    "note": "Trusted: Lean kernel; correspondence harness (sampling + exhaustive short sequences); SQLite (no read snapshot is held by pysqlite, so 'current for the transaction' = latest commit + own flushed changes; snapshot-isolation backends are not modelled). Relationship / collection / deferred attributes and refresh with_for_update are not modelled (column attributes only). Rows that do not carry every column are produced by select(T).from_statement(select(T.id, cols) | text(...)) on the single-table mapping and by select(Base) meeting subclass instances on a joined-table-inheritance mapping (same model op, cols = [a0]). The transition system is the single-table mapper: of the inheriting mapper only the decision of _load_scalar_attributes (optimized get vs select by identity, what a missing row becomes) is transcribed (loadScalarAttributes), full theorem unexpire_deleted_row_raises over the regenerated flag optimizedGetResultChecked (true since fix eeca727); the joined-mapping histories, external DELETEs included, are compared with the same model; the former finding joined-subclass-attr-unexpire-deleted-row-keyerror (KeyError, then None, instead of ObjectDeletedError) is kept as an oracle classification and a fixed witness so that a regression reports under that key. The translator recognises one shape of the populate_existing loop of loading._populate_full and of the `if statement is not None:` branch of _load_scalar_attributes (obligation fails otherwise).",
     "technique": "Lean 4 invariant proofs over a session/database LTS + differential correspondence on SQLite + independent reference oracle",
     "design_ref": "DESIGN.md §3 C30–C48 (C46)",
 }
@@ -394,8 +395,8 @@ def _run_history(case):
                         continue
                     st = status.get((k, a))
                     if st is not None and st[0] == "lost":
-                        # known finding (below) happened on this attribute: it is neither loaded nor
-                        # expired any more; a read that does not fail is the same defect showing again
+                        # the defect fixed by eeca727 (below) happened on this attribute: it is neither loaded
+                        # nor expired any more; a read that does not fail is the same defect showing again
                         try:
                             v = getattr(objs[k], "a%d" % a)
                             outs.append("v%s" % v)
@@ -409,8 +410,8 @@ def _run_history(case):
                         got = v
                     except KeyError as e:
                         # joined-table inheritance, the row vanished, only subclass-table attributes to
-                        # load: _load_scalar_attributes returns the empty result of the optimized
-                        # SELECT unexamined instead of raising ObjectDeletedError
+                        # load: before fix eeca727 _load_scalar_attributes returned the empty result of the
+                        # optimized SELECT unexamined instead of raising ObjectDeletedError
                         if w.variant == "joined" and a != 0 and k not in truth and "failed to populate" in str(e):
                             problems.append((KF_JOINED_DELETED, "read (%d,a%d) of a deleted row raised %s instead of ObjectDeletedError" % (k, a, str(e)[:120])))
                             outs.append("keyerr")
@@ -797,15 +798,12 @@ def gen_random(rng, tier):
 def to_joined(ops):
     """the same history for the joined-inheritance mapping: a partial-column query becomes a query
     of the base class (rows carry a0 only)"""
-    return [Q(o[1], o[2], [0], 2) if o[0] == "q" and o[3] is not None else o for o in ops if o[0] != "ed"]
+    return [Q(o[1], o[2], [0], 2) if o[0] == "q" and o[3] is not None else o for o in ops]
 
 
 # joined-table inheritance: the row is deleted by the other connection, one subclass-table attribute is
-# expired and read: KeyError instead of ObjectDeletedError, and the second read returns None (known
-# finding KF_JOINED_DELETED; Props/C46 unexpire_deleted_row_raises_partial / _counterexample).  The
-# transition system of Model/Expire.lean is the single-table mapper, so histories of the joined
-# mapping that are compared with it contain no external delete; this witness is replayed with the
-# direct oracle only.
+# expired and read twice: ObjectDeletedError both times (Props/C46 unexpire_deleted_row_raises).  Before
+# fix eeca727: KeyError, then None (KF_JOINED_DELETED).  Run first in every run, direct oracle only.
 JOINED_DELETED_WITNESS = {
     "variant": "joined", "npk": 1, "af": 0, "eoc": 0, "src": "witness-joined-deleted",
     "ops": [("ei", 0, 11), ("q", False, None, None, 0), ("ed", 0), ("x", 0, [1]), ("r", 0, 1), ("r", 0, 1)],
@@ -822,8 +820,6 @@ def small_scope(length, variant="single"):
         ("X",), ("f", 0, None), ("f", 0, [1]), Q(True), Q(False), ("r", 0, 0), ("r", 0, 1), ("F",), ("c",), ("b",), ("ed", 0),
         ("dt", 0), ("at", 0, 0), ("at", 0, 1),
     ]
-    if variant == "joined":
-        alpha.remove(("ed", 0))
     if variant == "single":
         alpha += [Q(True, None, [0], 0), Q(True, None, [1], 1), Q(False, None, [0], 1), Q(True, None, [], 0)]
     else:
@@ -890,9 +886,9 @@ def run(ctx, deep=False):
         "refresh(obj[,attrs])/query[populate_existing][filter][columns carried by the rows: all = select(T), or pk + any subset (also empty) of the "
         "attributes via from_statement(select(T.id, ...)) or from_statement(text(...))]/flush/commit/rollback/expunge/add/merge(load=False) on a real "
         "Session over a SQLite file, 1-3 rows x 3 attributes, autoflush and expire_on_commit on/off; random (seeded, 30% with an "
-        "external-write + partial-column-query motif; 20% on a joined-table-inheritance mapping where the partial-column query is select(Base) and "
-        "no external delete is generated) + all 2-op (and 5% quick / all thorough 3-op) sequences over a 25-letter one-row alphabet + 50% quick / all "
-        "thorough 2-op sequences over a 22-letter alphabet on the joined mapping + the fixed witness of the known finding (direct oracle only); "
+        "external-write + partial-column-query motif; 20% on a joined-table-inheritance mapping where the partial-column query is select(Base), "
+        "external deletes included) + all 2-op (and 5% quick / all thorough 3-op) sequences over a 25-letter one-row alphabet + 50% quick / all "
+        "thorough 2-op sequences over a 23-letter alphabet on the joined mapping + the fixed witness of the defect fixed by eeca727 (direct oracle only); "
         "non-trivial = at least one attribute read returned a value"
     )
     ctx.trusted.append("SQLite file database: no read snapshot (pysqlite), writers serialised; the other connection fails fast on a lock and the op is skipped on both sides")
